@@ -174,9 +174,30 @@ def parse_enums(src):
     return out
 
 
+ACTIVE_FEATURES = {'std', 'alloc'}
+
+
+def _cfg_enabled(part):
+    """evaluate leading #[cfg(feature = "x")] / #[cfg(not(feature = "x"))] attributes of a field"""
+    s = part.lstrip()
+    while s.startswith('#['):
+        j = _match_brace(s, 1)
+        attr = s[2:j]
+        m = re.match(r'^\s*cfg\(\s*feature\s*=\s*"([^"]+)"\s*\)\s*$', attr)
+        if m and m.group(1) not in ACTIVE_FEATURES:
+            return False
+        m = re.match(r'^\s*cfg\(\s*not\(\s*feature\s*=\s*"([^"]+)"\s*\)\s*\)\s*$', attr)
+        if m and m.group(1) in ACTIVE_FEATURES:
+            return False
+        s = s[j + 1:].lstrip()
+    return True
+
+
 def _field_names(body):
     names = []
     for part in _split_commas(body):
+        if not _cfg_enabled(part):
+            continue
         part = _strip_attrs(part)
         part = re.sub(r'^pub(\([^)]*\))?\s+', '', part)
         mm = re.match(r'^([A-Za-z_][A-Za-z_0-9]*)\s*:', part)
@@ -207,7 +228,10 @@ def parse_structs(src):
 
 
 class SourceInfo:
-    def __init__(self, root):
+    def __init__(self, root, features=('std', 'alloc')):
+        global ACTIVE_FEATURES
+        ACTIVE_FEATURES = set(features)
+        self.features = set(features)
         self.root = root
         self.files = {}
         self.enums = dict(STD_ENUMS)
@@ -216,6 +240,8 @@ class SourceInfo:
         self.impl_cache = {}
 
     def load_crate(self, reldir):
+        global ACTIVE_FEATURES
+        ACTIVE_FEATURES = set(self.features)
         d = os.path.join(self.root, reldir, 'src')
         for fn in sorted(os.listdir(d)):
             if fn.endswith('.rs'):
